@@ -335,6 +335,9 @@ func register(ty, name, fn string) error {
 			f = func(a []any, args ...any) []any { return []any{int64(1), make(chan int)} }
 		case "unsup2":
 			f = func(a []any, args ...any) []any { return []any{map[string]any{"k": func() {}}} }
+		case "nilres":
+			// a filter that matches nothing: the result is a nil slice, which is an empty array
+			f = func(a []any, args ...any) []any { var out []any; return out }
 		case "revip":
 			// changes the slice it received in place and returns that same slice
 			f = func(a []any, args ...any) []any {
